@@ -199,7 +199,7 @@ def bytesVerdict (c : Case) (abstractFile : Option (FileM UInt64)) (filesTok : T
   -- model's rows (`Layout.dbfOf`, the form `C16_container` is about; the record count in the header is the number
   -- of `.shp` records).
   let small := c.recs.length ≤ 64
-  let model : Option Layout.Files := match runBytes c small with
+  let model : Option Layout.Files := if filesTok.length != 4 then none else match runBytes c small with
     | none => none
     | some m =>
       if small then some m
@@ -208,6 +208,7 @@ def bytesVerdict (c : Case) (abstractFile : Option (FileM UInt64)) (filesTok : T
         | none => some m
   match filesTok, model with
   | [], _ => some "bytes-missing-in-answer"
+  | [_, "skipped", _], _ => none        -- files of more than 24 KiB are not part of the answer
   | _, none => some "bytes-present-but-model-has-no-encoder"
   | [_, a, b, d], some m =>
     (match hexTok a, hexTok b, hexTok d with
